@@ -248,7 +248,14 @@ class OraclesMixin:
         lib_names = names[reps[0]]
 
         if op == "join":
-            self.join_names(pt, step, inputs, lib_names)
+            try:
+                self.join_names(pt, step, inputs, lib_names)
+            except Skip:
+                # the names cannot be reconciled with the documented rule (judged under C06 only);
+                # the table's own metadata is still compared with its export under C11
+                if "O11" in self.fam:
+                    self.metadata_oracle(pt, step, lib_names)
+                raise
 
         if set(lib_names) != set(m.names()) or len(lib_names) != len(m.names()):
             fam = "O11" if "O11" in self.fam else "O16" if ("O16" in self.fam and op in REROOT_OPS) else self.primary_family()
